@@ -135,3 +135,101 @@ fn k_resource_parameter_name_nopanic() {
     }
     kani::cover!(true, "reachable");
 }
+
+//@use_common
+
+struct NshParam { id: u32, name: &'static str, slot: u16, size: u16 }
+fn nsh_u16(o: &mut Vec<u8>, v: u16) { o.extend_from_slice(&v.to_le_bytes()); }
+fn nsh_u32(o: &mut Vec<u8>, v: u32) { o.extend_from_slice(&v.to_le_bytes()); }
+/// a shader package with every table populated, packed by hand in the order the format stores it
+fn nsh_package() -> (Vec<u8>, Vec<u8>, Vec<u8>) {
+    let mut strings: Vec<u8> = vec![];
+    let mut put_param = |o: &mut Vec<u8>, p: &NshParam, strings: &mut Vec<u8>| {
+        nsh_u32(o, p.id); nsh_u32(o, strings.len() as u32); nsh_u16(o, p.name.len() as u16); nsh_u16(o, 0); nsh_u16(o, p.slot); nsh_u16(o, p.size);
+        strings.extend_from_slice(p.name.as_bytes()); strings.push(0);
+    };
+    let vs_code: Vec<u8> = (0..24u8).map(|i| i.wrapping_mul(7).wrapping_add(3)).collect();
+    let ps_code: Vec<u8> = (0..40u8).map(|i| i.wrapping_mul(13).wrapping_add(1)).collect();
+    let mut o: Vec<u8> = vec![];
+    o.extend_from_slice(b"ShPk"); nsh_u32(&mut o, 0x0D01); o.extend_from_slice(b"DX11");
+    nsh_u32(&mut o, 0); nsh_u32(&mut o, 0); nsh_u32(&mut o, 0); // file length, shader data offset, strings offset: patched below
+    nsh_u32(&mut o, 1); nsh_u32(&mut o, 1); // vertex / pixel shader count
+    nsh_u32(&mut o, 8); nsh_u16(&mut o, 2); nsh_u16(&mut o, 1); // material parameters: size 8 bytes, 2 parameters, defaults present
+    nsh_u16(&mut o, 1); nsh_u16(&mut o, 0); nsh_u16(&mut o, 1); nsh_u16(&mut o, 1); nsh_u16(&mut o, 1); nsh_u16(&mut o, 0); // scalar, unknown, sampler, texture, uav, unknown
+    nsh_u32(&mut o, 1); nsh_u32(&mut o, 1); nsh_u32(&mut o, 1); nsh_u32(&mut o, 2); nsh_u32(&mut o, 2); // system / scene / material keys, nodes, aliases
+    // vertex shader: data at 0 (8 bytes of extra data precede the bytecode), 1 scalar + 1 texture parameter
+    nsh_u32(&mut o, 0); nsh_u32(&mut o, vs_code.len() as u32); nsh_u16(&mut o, 1); nsh_u16(&mut o, 0); nsh_u16(&mut o, 0); nsh_u16(&mut o, 1);
+    put_param(&mut o, &NshParam { id: 0x1001, name: "g_WorldViewMatrix", slot: 3, size: 4 }, &mut strings);
+    put_param(&mut o, &NshParam { id: 0x1002, name: "g_SamplerNormal", slot: 1, size: 1 }, &mut strings);
+    // pixel shader: data after the vertex shader's, 1 resource parameter
+    nsh_u32(&mut o, 8 + vs_code.len() as u32); nsh_u32(&mut o, ps_code.len() as u32); nsh_u16(&mut o, 0); nsh_u16(&mut o, 1); nsh_u16(&mut o, 0); nsh_u16(&mut o, 0);
+    put_param(&mut o, &NshParam { id: 0x2001, name: "g_CommonParameter", slot: 7, size: 2 }, &mut strings);
+    // material parameters and their defaults
+    nsh_u32(&mut o, 0x3001); nsh_u16(&mut o, 0); nsh_u16(&mut o, 4); nsh_u32(&mut o, 0x3002); nsh_u16(&mut o, 4); nsh_u16(&mut o, 4);
+    o.extend_from_slice(&1.5f32.to_le_bytes()); o.extend_from_slice(&(-2.0f32).to_le_bytes());
+    put_param(&mut o, &NshParam { id: 0x4001, name: "g_MaterialParameter", slot: 2, size: 1 }, &mut strings);
+    put_param(&mut o, &NshParam { id: 0x4002, name: "g_SamplerDiffuse", slot: 0, size: 1 }, &mut strings);
+    put_param(&mut o, &NshParam { id: 0x4003, name: "g_TextureMask", slot: 5, size: 1 }, &mut strings);
+    put_param(&mut o, &NshParam { id: 0x4004, name: "g_Uav", slot: 6, size: 1 }, &mut strings);
+    nsh_u32(&mut o, 0x5001); nsh_u32(&mut o, 11); nsh_u32(&mut o, 0x5002); nsh_u32(&mut o, 22); nsh_u32(&mut o, 0x5003); nsh_u32(&mut o, 33); // keys (id, default)
+    nsh_u32(&mut o, 0x6001); nsh_u32(&mut o, 0x6002); // sub-view key defaults
+    for n in 0..2u32 {
+        nsh_u32(&mut o, 0x7000_0000 + n); nsh_u32(&mut o, 1); o.extend_from_slice(&[0xFFu8; 16]);
+        nsh_u32(&mut o, 100 + n); nsh_u32(&mut o, 200 + n); nsh_u32(&mut o, 300 + n); nsh_u32(&mut o, 400 + n); nsh_u32(&mut o, 500 + n); // system, scene, material, 2 sub-view keys
+        nsh_u32(&mut o, 0x8000 + n); nsh_u32(&mut o, 0); nsh_u32(&mut o, 0); // pass: id, vertex shader, pixel shader
+    }
+    nsh_u32(&mut o, 0xAAAA_000A); nsh_u32(&mut o, 1); nsh_u32(&mut o, 0xBBBB_000B); nsh_u32(&mut o, 0);
+    let shader_data_offset = o.len() as u32;
+    o.extend_from_slice(&[0xE1u8; 8]); o.extend_from_slice(&vs_code); o.extend_from_slice(&ps_code);
+    // the vertex shader's extra-data read takes shader_data_offset bytes from its data position: keep that much behind it
+    while (o.len() as u32) < shader_data_offset * 2 { o.push(0xCD); }
+    let strings_offset = o.len() as u32;
+    o.extend_from_slice(&strings);
+    let len = o.len() as u32;
+    o[12..16].copy_from_slice(&len.to_le_bytes()); o[16..20].copy_from_slice(&shader_data_offset.to_le_bytes()); o[20..24].copy_from_slice(&strings_offset.to_le_bytes());
+    (o, vs_code, ps_code)
+}
+
+//@unit props=C14 label=B tier=quick native=1 fn=shpk::ShaderPackage::{from_existing,find_node} bound="by execution: one hand-packed package with every table populated (1 vertex + 1 pixel shader with parameters, 2 material parameters with defaults, 4 package parameters, 3 keys, 2 nodes with keys and a pass, 2 aliases)"
+//@desc the parsed package returns what was packed: shader bytecode (vertex bytecode after its 8 extra bytes), parameter names resolved through the string table with their slots, keys and defaults, nodes with their key lists and passes; find_node resolves node selectors and aliases and nothing else
+#[test]
+fn native_shpk_parse() {
+    let (bytes, vs_code, ps_code) = nsh_package();
+    let p = ShaderPackage::from_existing(&bytes).expect("a well-formed package parses");
+    assert_eq!((p.vertex_shaders.len(), p.pixel_shaders.len()), (1, 1));
+    assert_eq!(p.vertex_shaders[0].bytecode, vs_code, "vertex bytecode follows its 8 bytes of extra data");
+    assert_eq!(p.pixel_shaders[0].bytecode, ps_code, "pixel bytecode");
+    assert_eq!((p.vertex_shaders[0].scalar_parameters[0].name.as_str(), p.vertex_shaders[0].scalar_parameters[0].slot), ("g_WorldViewMatrix", 3));
+    assert_eq!((p.vertex_shaders[0].texture_parameters[0].name.as_str(), p.vertex_shaders[0].texture_parameters[0].slot), ("g_SamplerNormal", 1));
+    assert_eq!((p.pixel_shaders[0].resource_parameters[0].name.as_str(), p.pixel_shaders[0].resource_parameters[0].slot), ("g_CommonParameter", 7));
+    assert_eq!(p.material_parameters_size, 8);
+    assert_eq!(p.material_parameters.len(), 2);
+    assert_eq!(p.mat_param_defaults, vec![1.5f32, -2.0]);
+    assert_eq!((p.scalar_parameters[0].name.as_str(), p.sampler_parameters[0].name.as_str(), p.texture_parameters[0].name.as_str(), p.uav_parameters[0].name.as_str()), ("g_MaterialParameter", "g_SamplerDiffuse", "g_TextureMask", "g_Uav"));
+    assert_eq!((p.texture_parameters[0].slot, p.uav_parameters[0].slot), (5, 6));
+    assert_eq!((p.system_keys[0].id, p.system_keys[0].default_value, p.scene_keys[0].id, p.scene_keys[0].default_value, p.material_keys[0].id, p.material_keys[0].default_value), (0x5001, 11, 0x5002, 22, 0x5003, 33));
+    assert_eq!((p.sub_view_key1_default, p.sub_view_key2_default), (0x6001, 0x6002));
+    assert_eq!(p.nodes.len(), 2);
+    for n in 0..2u32 {
+        let node = &p.nodes[n as usize];
+        assert_eq!((node.selector, node.pass_count), (0x7000_0000 + n, 1));
+        assert_eq!((&node.system_keys, &node.scene_keys, &node.material_keys, &node.subview_keys), (&vec![100 + n], &vec![200 + n], &vec![300 + n], &vec![400 + n, 500 + n]));
+        assert_eq!((node.passes[0].id, node.passes[0].vertex_shader, node.passes[0].pixel_shader), (0x8000 + n, 0, 0));
+        assert_eq!(p.find_node(0x7000_0000 + n).map(|x| x.selector), Some(0x7000_0000 + n), "a node is found by its own selector");
+    }
+    assert_eq!(p.find_node(0xAAAA_000A).map(|x| x.selector), Some(0x7000_0001), "alias resolves to the node it names");
+    assert_eq!(p.find_node(0xBBBB_000B).map(|x| x.selector), Some(0x7000_0000));
+    assert!(p.find_node(0xDEAD_BEEF).is_none() && p.find_node(0).is_none() && p.find_node(1).is_none(), "unknown selectors resolve to nothing");
+    println!("NATIVE native_shpk_parse cases=1");
+}
+
+//@unit props=C18 label=B tier=quick native=1 fn=shpk::ShaderPackage::{from_existing,find_node} bound="by execution: the hand-packed package of native_shpk_parse: every truncation and 7 single-byte corruptions per byte, each followed by find_node on the two node selectors, the two aliases and an unknown selector"
+//@desc damaged shader packages (truncated anywhere, any count, offset, string length, name byte or alias damaged) yield None or a value and lookups on the value return a node or None, never a panic
+#[test]
+fn native_shpk_damaged_nopanic() {
+    let (bytes, _, _) = nsh_package();
+    let f = |b: &[u8]| { if let Some(p) = ShaderPackage::from_existing(b) { for sel in [0x7000_0000u32, 0x7000_0001, 0xAAAA_000A, 0xBBBB_000B, 0xDEAD_BEEF] { let _ = p.find_node(sel); } } };
+    let mut s = NativeSites::new();
+    s.sweep(&bytes, 1 << 20, 1, &f);
+    s.finish("native_shpk_damaged_nopanic");
+}
